@@ -191,6 +191,11 @@ def run(res, tier, seed):
     rng = np.random.default_rng(seed)
     exprs = []
     for specs, times, truth, jump, label in cases(rng, tier):
+        if any(len({(x, y) for _, x, y in sp["vertices"]}) < len(sp["vertices"]) for sp in specs):
+            # the dyadic snapping of a generated displacement put two vertices on one point: not a tissue (an interface of length zero
+            # has no direction; the assembly divides 0 by 0, silently or not depending on numpy's error state)
+            res.count("generated series with two vertices on one point (skipped)")
+            continue
         check_series(res, specs, times, truth, jump, rng, exprs, label)
     bools, outs = C.coq_eval_bools("C13", IMPORTS, [e for e, _ in exprs], chunk=8)
     for (e, rp), b in zip(exprs, bools):
